@@ -232,7 +232,7 @@ def play(case, base, timeout=15.0, binary=None, env=None):
     return answers
 
 
-def to_model_lines(case, cases):
+def to_model_lines(case, cases, extra=None):
     """append the case to a core.Cases object; returns the (case, idx) keys aligned with play()'s answers"""
     cases.case(case.name, case.meta)
     keys = []
@@ -255,17 +255,20 @@ def to_model_lines(case, cases):
             cases.op("close", st[1])
         else:
             keys.append((case.name, cases.q("h_" + st[1], *st[2:])))
+    # library-level queries on the final state of the case (model side only: spec lines / hypothesis flags)
+    for q in (extra or []):
+        cases.q(*q)
     return keys
 
 
-def run_all(run, stdio_cases, tag="stdio", workers=1):
+def run_all(run, stdio_cases, tag="stdio", workers=1, extra=None):
     """-> list of (case, step_index, step, impl_answer, model_answer)"""
     base = "/dev/shm/plsv-lsp-%d" % os.getpid()
     cases = core.Cases()
     run.last_cases = cases
     keymap = {}
     for sc in stdio_cases:
-        keymap[sc.name] = to_model_lines(sc, cases)
+        keymap[sc.name] = to_model_lines(sc, cases, (extra or {}).get(sc.name))
     path = os.path.join(core.BUILD, f"{run.prop}-{tag}-{os.getpid()}.case")
     cases.write(path)
     rc, out, dt = core.run_model(path)
